@@ -44,7 +44,7 @@ def podsFromWorkload (w : Workload) : List Pod :=
   let n := if replicas > 1 then 2 else 1
   (List.range n).map fun i =>
     { ns := w.ns, name := w.name ++ "-" ++ toString (i + 1), labels := w.labels, ports := w.ports,
-      ownerKind := w.kind, ownerName := w.name, variant := variantOf w.labels, hostIP := "127.0.0.1" }
+      ownerKind := w.kind, ownerName := w.name, variant := variantOf w.labels w.ports, hostIP := "127.0.0.1" }
 
 def insertPodObj (e : Engine) (p : Pod) : Engine := { e with pods := upsert podKey p e.pods }
 
